@@ -23,14 +23,19 @@ def _install(case):
 MARKER = re.compile(r'<Recursion on (\w+) with id=(\d+)>')
 
 
-def make_graph(kinds, adj):
+def make_graph(kinds, adj, unlabelled=False):
     """nodes[i] is a container of kind kinds[i] holding the int i*10+5 and its
-    successors in index order."""
+    successors in index order.  ``unlabelled``: no int leaf, so that distinct
+    nodes can be equal (and a node without successors is an empty container)."""
     n = len(kinds)
     nodes = []
     inner = []
     for i, k in enumerate(kinds):
-        if k == 'list':
+        if unlabelled:
+            o = [] if k == 'list' else {}
+            nodes.append(o)
+            inner.append(o)
+        elif k == 'list':
             o = [i * 10 + 5]
             nodes.append(o)
             inner.append(o)
@@ -153,7 +158,8 @@ class GraphCase(base.CaseBase):
             return self.execute(adj, 79, 71)
 
     def execute(self, adj, w, rw):
-        nodes = make_graph(self.kinds, adj)
+        unlabelled = bool(self.params.get('unlabelled'))
+        nodes = make_graph(self.kinds, adj, unlabelled)
         root = nodes[0]
         if self.params.get('abort_first'):
             # an earlier print of the same graph that is aborted by an
@@ -208,9 +214,13 @@ class GraphCase(base.CaseBase):
                     return self.fail('C13:shared-object-printed-as-recursion', describe)
                 return self.fail('C13:recursion-markers-differ', describe)
             for i in range(self.n):
+                if unlabelled:
+                    break
                 cnt = len(re.findall(r'(?<!\d)%d(?!\d)' % (i * 10 + 5), MARKER.sub('', text)))
                 if cnt != want_full[i]:
                     return self.fail('C13:node-not-printed-in-full-each-time', describe)
+            if unlabelled and text.count('[') + text.count('{') != sum(want_full):
+                return self.fail('C13:node-not-printed-in-full-each-time', describe)
             # no residue
             try:
                 again = PKG.pformat(root, width=w, ribbon_width=rw, depth=depth) if (self.native or not self.traced) else PKG.pformat(root, depth=depth)
@@ -303,6 +313,10 @@ def cases(tier, seed):
     for ks in [('ulist',), ('ulist', 'dict'), ('ulist', 'ulist')]:
         out.append({'name': 'n%d:%s:reclass' % (len(ks), '-'.join(ks)), 'family': 'graph',
                     'params': {'kinds': list(ks), 'reclass': True, 'traced': False}, 'budget': 120.0})
+    # nodes without a distinguishing leaf: distinct nodes may be equal, leaves are empty containers
+    for ks in [('list', 'list'), ('list', 'dict'), ('list', 'list', 'list'), ('dict', 'list', 'dict')]:
+        out.append({'name': 'n%d:%s:unlabelled' % (len(ks), '-'.join(ks)), 'family': 'graph',
+                    'params': {'kinds': list(ks), 'unlabelled': True, 'traced': False}, 'budget': 200.0})
     # cycles under a finite depth limit (list / dict nodes)
     for ks in [('list', 'dict'), ('dict', 'list', 'list')]:
         for d in ((3,) if tier == 'quick' else (1, 2, 3, 5)):
